@@ -14,6 +14,7 @@ pub struct C05;
 pub const SRC: &str = "/sim/source.lef";
 pub const OUT: &str = "/sim/out.lef";
 pub const TMP: &str = "/sim/tostring.lef";
+pub const RIN: &str = "/sim/read-error.lef";
 
 /// Signature of a LEF error: variant, parse-error type and context stack (from the Debug form)
 pub fn lef_err_sig(e: &LefError) -> String {
@@ -340,6 +341,33 @@ impl Check for C05 {
                         out.probes.hit("save_transient_error_recovered");
                     }
                     reread(OUT, "save-open", &mut out);
+                }
+            }
+        }
+        // read side of the terminal configuration: the written text is opened from a file whose read fails at a drawn
+        // offset (EIO / EAGAIN / ETIMEDOUT, once or sticky). The disk said "error", so `open` must say Err — or, if it
+        // retried and got everything, return the library; a library that differs from the written one means the error
+        // was taken for the end of the file. (End-of-file itself is not injected: a prefix of a LEF text is a LEF text.)
+        if cfg == Cfg::Terminal && out.violation.is_none() && !s0.is_empty() {
+            let rp = terminal_read(&mut io.borrow_mut().ftape, s0.len() as u64, false);
+            extra ^= policy_digest(&rp).rotate_left(27);
+            fs.put(RIN, s0.clone().into_bytes());
+            fs.plan(RIN, FilePlan { read: rp.clone(), ..Default::default() });
+            let before = io.borrow().errors_returned.len();
+            match guard(|| LefLibrary::open(fs.sp(RIN))) {
+                Err(p) => out.violation = Some(panic_violation("LefLibrary::open(read error)", &p, art(json!({"written_text": truncate(&s0, 6000)})))),
+                Ok(Err(_)) => out.probes.hit("open_read_error_reported"),
+                Ok(Ok(l2)) => {
+                    let fired = io.borrow().errors_returned.len() > before;
+                    if l2 != lib && fired {
+                        let d = first_diff(&lib, &l2);
+                        out.violation = Some(v("read-error-swallowed", format!("open/read-error:{}", d), format!("open returned Ok although the disk reported {:?}, and the library differs from the stored one at {}", io.borrow().errors_returned[before..].iter().map(|e| e.2).collect::<Vec<_>>(), d), json!({"written_text": truncate(&s0, 6000), "read_policy": format!("{:?}", rp)})));
+                    } else if l2 != lib {
+                        let d = first_diff(&lib, &l2);
+                        out.violation = Some(v("mismatch", format!("open/benign-before-fault:{}", d), format!("the library read back differs at {} (no read error fired)", d), json!({"written_text": truncate(&s0, 6000)})));
+                    } else if fired {
+                        out.probes.hit("open_read_error_recovered_value_complete");
+                    }
                 }
             }
         }
